@@ -48,7 +48,7 @@ PROPS = {
         technique="contract-based deductive verification: frame obligations (static analysis of the real ASTs) + bounded run-time contract (concatenation oracle)",
     ),
     "C06": dict(
-        contracts=["c06", "lexer"], frames=["normalize-only-in-p_id"], level="proof",
+        contracts=["c06", "lexer"], frames=["normalize-only-in-p_id"], bounded=True, level="proof",
         explanation="p_id: verbatim copy with the flag off, exactly one outer delimiter pair stripped with it on, in every lexer context; normalize_names is read nowhere else (frame)",
         level_text="the single id production is proved for all identifier strings and all lexer contexts to copy the token verbatim (flag off) or strip exactly one outer delimiter pair (flag on); "
                    "a frame obligation shows normalize_names is read nowhere else, so every other value is independent of the flag",
@@ -64,7 +64,7 @@ PROPS = {
         technique="contract-based deductive verification: frame / initialisation obligations decided by static analysis of the real ASTs",
     ),
     "C15": dict(
-        frames=["global-purity", "class-level-state"], level="proof",
+        frames=["global-purity", "class-level-state"], bounded=True, level="proof",
         explanation="frame obligations: construct and run paths never read PLY's process-global parser/lexer, write no module globals; the statement parse goes through self.yacc with lexer=self.lexer; "
                     "with disjoint per-object footprints any interleaving of different objects' operations is equivalent to a sequential one",
         level_text="global-purity frame obligations over the real source; the footprint-commutation argument (disjoint per-object state => interleavings equivalent to sequential runs) is stated, not machine-checked",
